@@ -169,12 +169,13 @@ def op_learn_chunks(case):
         for ci, chunk in enumerate(case["chunks"]):
             seqs = render_jobs(chunk, dict(case.get("present", {}), pseed=case.get("present", {}).get("pseed", 0) + ci))
             events_map = {}
-            mpath = os.path.join(out, "%s_model.json" % name)
+            fname = name.replace(" ", "_")      # the documented file naming of pv_streams_to_puml_files
+            mpath = os.path.join(out, "%s_model.json" % fname)
             if ci > 0:
                 jn, events = load_events_from_file(mpath)
                 events_map[jn] = events
             pv_streams_to_puml_files([(name, seqs)], out, events_map, save_models=True)
-            with open(os.path.join(out, "%s.puml" % name)) as fh:
+            with open(os.path.join(out, "%s.puml" % fname)) as fh:
                 texts.append(fh.read())
             with open(mpath) as fh:
                 models.append(fh.read())
